@@ -108,7 +108,8 @@ def make_suites(prop: str, focuses: list[tuple[str, int, int]], rule: str):
     def suite_corpus(ctx: Ctx) -> SuiteResult:
         res = SuiteResult(f"{prop}-corpus", rule="committed minimised past failures (scenario + schedule), "
                                                   "replayed first; non-trivial = exercises a pause/save/fault")
-        jobs = [(c["case"]["scenario"], c["case"].get("schedule"), 0) for c in corpus_cases(prop)]
+        jobs = [(c["case"]["scenario"], c["case"].get("schedule"), 0) for c in corpus_cases(prop)
+                if "scenario" in c["case"]]
         # the shared protocol corpus (findings F1-F3, F10 witnesses) is replayed by every Proto check
         jobs += [(c["case"]["scenario"], c["case"].get("schedule"), 0) for c in corpus_cases("PROTO")]
         run_many(ctx, prop, jobs, res)
